@@ -30,7 +30,7 @@ import (
 // mktp: board-in ++ [n1 moves1.. n2 moves2..] -> for each of the two sequences
 // board-out-nohist ++ [Hash()] after playing it (transpositions, C04).
 func init() {
-	hx.Register(&hx.Stream{Name: "mkseq", Gen: genMkseq, Run: runMkseq})
+	hx.Register(&hx.Stream{Name: "mkseq", Gen: genMkseq, Run: runMkseq, Shrink: shrinkMkseq, Describe: describeMkseq})
 	hx.Register(&hx.Stream{Name: "mktp", Gen: genMktp, Run: runMktp})
 }
 
